@@ -21,8 +21,7 @@ pub fn fixed_inv<const L: usize, const U: usize>(t: &mut Tape, c: &mut Case) -> 
 where
     Odd<Uint<L>>: PrecomputeInverter<Inverter = SafeGcdInverter<L, U>, Output = Uint<L>>,
 {
-    let md = gens::modulus(t, L, false);
-    let (al, acl) = gens::value(t, L, &md);
+    let (md, al, acl) = gens::modulus_value(t, L, false);
     let ml = limbs_exact(&md.m, L);
     c.limbs("a", &al);
     c.limbs("m", &ml);
@@ -181,7 +180,7 @@ pub fn fixed_gcd<const L: usize, const U: usize>(t: &mut Tape, c: &mut Case) -> 
 where
     Odd<Uint<L>>: PrecomputeInverter<Inverter = SafeGcdInverter<L, U>, Output = Uint<L>>,
 {
-    let (xl, yl, class) = gens::gcd_pair(t, L);
+    let (xl, yl, class) = gens::gcd_pair_w(t, L);
     c.limbs("x", &xl);
     c.limbs("y", &yl);
     let (xb, yb) = (big(&xl), big(&yl));
@@ -264,8 +263,7 @@ where
     Odd<Uint<L>>: PrecomputeInverter<Inverter = SafeGcdInverter<L, U>, Output = Uint<L>>,
     Pm: PreMonty<L>,
 {
-    let md = gens::modulus(t, L, true);
-    let (al, acl) = gens::residue_value(t, L, &md);
+    let (md, al, acl) = gens::modulus_residue(t, L);
     let ml = limbs_exact(&md.m, L);
     let vartime_params = t.bool();
     c.limbs("a", &al);
